@@ -107,7 +107,12 @@ def _worker(spec):
     for gi, g in enumerate(gs):
         cls = gg.classify(tbs[gi])
         if cls in ('rr', 'acc') or diags[gi].has_rr: continue
+        keep = []
         for idx, data in enumerate(inputs[gi]):
+            # grammars with resolved conflicts may loop on some inputs (termination is promised for conflict-free grammars only):
+            # inputs on which the reference driver hits its step limit are not run
+            if cls != 'lr1' and model.expect(g, tbs[gi], data).res.hang:
+                out['counts']['inputs_skipped_reference_step_limit'] += 1; continue
             for mode in modes: jobs.append((gi, idx, mode, data))
     rc, recs, _, meta, err = eg.run_jobs(exe, jobs, timeout=cfg.get('timeout', 600))
     byk = {(r.gi, r.idx, r.mode): r for r in recs}
